@@ -50,7 +50,22 @@ def compat_enum(a, b):
 
 
 def derived(a, b):
-    return a == b or (a, b) == ('B', 'A')
+    return a == b or (a, b) in (('B', 'A'), ('D', 'B'), ('D', 'A'))
+
+
+# thorough tier: a second layer of types (transitive inheritance, lists of pointers/doubles/lists, a pointer to a gadget-like class)
+PD = ('Pointer', ('Class', 'D'))
+LPA, LPB, LD, LLS = ('List', PA), ('List', PB), ('List', DOUBLE), ('List', LS)
+EXTRA_TKS = [PD, LPA, LPB, LD, LLS, ('Pointer', ('Class', 'G'))]
+NAMES.update({repr(PD): 'D*(D:B:A)', repr(LPA): 'QList<A*>', repr(LPB): 'QList<B*>', repr(LD): 'QList<double>', repr(LLS): 'QList<QStringList>', repr(('Pointer', ('Class', 'G'))): 'G*'})
+
+
+def set_domain(tier):
+    """16 x 20 types in the quick tier, 22 x 26 in the thorough tier."""
+    global TKS, TDS
+    base = [INT, UINT, DOUBLE, BOOL, STRING, VOID, VARIANT, E1, E2, E3, PA, PB, PC, LS, LI, GADGET]
+    TKS = base + (EXTRA_TKS if tier == 'thorough' else [])
+    TDS = [('Concrete', t) for t in TKS] + [('ConstInteger',), ('ConstString',), ('NullPointer',), ('EmptyList',)]
 
 
 # ---- the documented discipline ---------------------------------------------------------------------------
@@ -183,8 +198,9 @@ def operand(td):
 
 
 def base_stubs():
+    # is_compatible_enum itself is evaluated; only the type map behind it is modelled: E2 is declared as an alias of E1
     return {
-        'typeutil::is_compatible_enum': lambda a: ('Ok', compat_enum(a[0], a[1])),
+        'Enum::alias_enum': lambda a: ('Some', ('Ok', 'E1')) if a[0] == 'E2' else ('None',),
         'Class::is_derived_from': lambda a: derived(a[0], a[1]),
     }
 
@@ -239,6 +255,7 @@ def dyn_builtin(I4, kind, args):
 def run(ck):
     F = ck.facts
     L = F.lib
+    set_domain(getattr(ck, 'tier', 'quick'))
     ck.explanation = (
         'R5.1 is_assignable / is_concrete_assignable accept exactly the cells of expected_assignable (16x20 and 16x16 cells). R5.2 '
         'pick_type_cast / pick_concrete_type_cast yield the documented cast kind in every cell. R5.3 deduce_type is evaluated on 20x20 '
@@ -259,10 +276,7 @@ def run(ck):
                       ('R5.7', 'the result type accounts for every return')):
         ck.rule(rid, text)
 
-    stubs = {
-        'typeutil::is_compatible_enum': lambda a: ('Ok', compat_enum(a[0], a[1])),
-        'Class::is_derived_from': lambda a: derived(a[0], a[1]),
-    }
+    stubs = base_stubs()
     I = aeval.Interp(L, stubs=stubs)
 
     def cell(rule, key, fnpath, args, expect, describe):
@@ -593,9 +607,14 @@ def run(ck):
         if len(asg) == 1:
             conds = [a for a in H.ancestors(mc, asg[0]) if a.get('k') == 'If']
             cs = ' && '.join(pp(a['c'], maxlen=120) for a in conds)
-            ok = 'arguments_len()' in cs and 'arguments.len()' in cs and 'compatible' in cs
-            comp = next((s for s in H.binding_sites(mc).values() if s['kind'] == 'let' and s['bind']['name'] == 'compatible'), None)
-            ok = ok and comp is not None and any(H.is_call_to(c, 'typeutil::is_assignable') for c in H.calls_in(comp['node']['init'])) and any(c.get('m') == 'zip' for c in H.calls_in(comp['node']['init']))
+            comp = next((s for s in H.binding_sites(mc).values() if s['kind'] == 'let' and s['node'].get('init') is not None and
+                         any(H.is_call_to(c, 'typeutil::is_assignable') for c in H.calls_in(s['node']['init'])) and any(c.get('m') == 'zip' for c in H.calls_in(s['node']['init']))), None)
+            cond_locals = {x.get('hid') for a in conds for x in walk(a['c']) if x.get('k') == 'Path' and x.get('res') == 'local'}
+            eqs = [x for a in conds for x in walk(a['c']) if x.get('k') == 'Binary' and x.get('op') == 'Eq' and
+                   {True} == {any(c.get('m') == 'arguments_len' for c in H.calls_in(x[s1])) or any(c.get('m') == 'len' for c in H.calls_in(x[s1])) for s1 in ('l', 'r')} and
+                   any(c.get('m') == 'arguments_len' for c in H.calls_in(x)) and any(c.get('m') == 'len' for c in H.calls_in(x))]
+            ok = bool(eqs) and comp is not None and comp['bind']['hid'] in cond_locals and \
+                not any(x.get('k') == 'Unary' and x.get('op') == 'Not' and any(y.get('hid') == comp['bind']['hid'] for y in walk(x)) for a in conds for x in walk(a['c']))
         ck.ob('R5.6', 'method-arguments', ok, L.loc(asg[0]) if asg else '', 'an overload is chosen only if the argument count matches and every argument is_assignable to its parameter')
         site = next((n for n in walk(mc['body']) if n.get('k') == 'Call' and (n.get('def') or '').endswith('Rvalue::CallMethod')), None)
         iff = next((a for a in H.ancestors(mc, site) if a.get('k') == 'If' and a['c'].get('k') == 'LetCond' and 'matched_index' in pp(a['c']['e'])), None) if site else None
